@@ -510,9 +510,9 @@ def run():
     H = Harness('C17',
                 rule='a case is one (class, concrete state, side, operation instance, way the object was obtained); all are '
                      'counted non-trivial except operations on the empty FrozenDict; FrozenDict cases: (content, operation, hash cached?)',
-                bounds=dict(quick='OneToOne: keys/values {1,2,"a"} (+None from setdefault), ~70 operation instances x 2 sides x 4 ways of '
+                bounds=dict(quick='OneToOne: keys/values {1,2,"a"} (+None from setdefault), 60 operation instances x 2 sides x 4 ways of '
                                   'obtaining the object, every distinct ordered state reachable in <= 2 steps expanded (histories <= 3); '
-                                  'ManyToMany: keys {1,2,3} x values {"a","b"}, ~95 operation instances, x 3 ways of obtaining the object, '
+                                  'ManyToMany: keys {1,2,3} x values {"a","b"}, 82 operation instances (41 per side) x 3 ways of obtaining the object, '
                                   'every operation from every one of the 64 pair sets (all reached within 3 steps); FrozenDict: all contents over 3 keys x 2 values in all insertion orders, 20 mutator calls, '
                                   '7 + 6 copy operations, hash cached or not',
                             thorough='OneToOne histories <= 5; ManyToMany keys {1,2,3} x values {"a","b","c"} until no new abstract '
